@@ -10,7 +10,7 @@ DRIVER = "driver_lp"
 LEAN_MODULES = ["AllfedModel.Props.C12"]
 OBLIGATIONS = ["Allfed.C12." + n for n in [
     "scale_feasible", "scale_optimum", "mono_storedInitial", "mono_cropProd", "mono_scp", "mono_cs", "mono_meat", "mono_constants",
-    "charge_antitone_partial"]]
+    "charge_antitone_partial", "limits_needed_counterexample"]]
 LEVEL_TEXT = ("Lean 4 theorems about the LP the code builds (human-maximising rounds, all inputs): scaling population and every supply by k>0 maps feasible points to feasible points "
               "with the same objective, both ways (equal optimum); for each supply (stock, monthly crops, SCP, sugar, meat total/caps, milk, fish, greenhouse) an explicit "
               "transformation of any feasible point of the smaller instance into a feasible point of the larger with objective >=; lowering the feed/biofuel charge likewise without seaweed. "
@@ -20,7 +20,7 @@ LEVEL_NOTE = ("Trusted: Lean kernel; the harness; the scaled/perturbed instances
 TECHNIQUE = "Lean 4 proof (explicit transformations of feasible points) + re-solves of perturbed captured instances with the real Optimizer"
 RULE = ("captured round-1/round-3 optimiser inputs of real runs x {common scale 1e-3..1e3, +1 %/+50 % on each supply, -1 point on each waste, +1 %/-50 % charge}; each re-solved by the real "
         "Optimizer.optimize_to_humans; non-trivial = the baseline optimum is > 0 and the perturbed quantity is present; distinct = (instance, perturbation)")
-ASSUMPTIONS = ["wastes in [0,100), positive monthly requirement (hypotheses of the monotonicity theorems)"]
+ASSUMPTIONS = ["wastes in [0,100), non-negative monthly requirement and non-negative human intake limits (hypotheses of the monotonicity theorems; needed: proved counter-example limits_needed_counterexample)"]
 
 GAP = 2e-5
 
